@@ -9,7 +9,8 @@
 From Coq Require Import List Arith Bool Lia.
 Import ListNotations.
 From TP Require Import Global.Threads Global.ThreadsProofs Global.SharedName Global.SharedNameProofs
-     Gen.SharedAccess Global.Cache Global.CacheProofs.
+     Gen.SharedAccess Global.Cache Global.CacheProofs Global.Compose Global.ComposeProofs
+     Global.ClassModel Global.ClassModelProofs.
 
 (* The full statement, for the validators of the generated table: whatever the schedule, every
    thread validating the same field of the same class reads - hence returns - what it does alone.
@@ -80,6 +81,34 @@ Theorem C20_classified_racy : forall e,
     exists tr, interleave [nth 0 (sample_threads e) []; nth 1 (sample_threads e) []] tr /\
                forall m0 m, obs_in m0 tr 0 <> obs_seq m (nth 0 (sample_threads e) []).
 Proof. exact classified_racy_witness. Qed.
+
+(* ---- several fields / nested classes: safety composes over disjoint cells (Global/Compose.v) ---- *)
+
+(* two thread families on disjoint cells, each safe: the family whose threads run their program of the
+   first followed by their program of the second is safe *)
+Theorem C20_compose_safe : forall a b,
+    length a = length b -> safe_b a = true -> safe_b b = true -> disjoint_b a b = true ->
+    safe_b (zip_app a b) = true.
+Proof. exact safe_zip_app. Qed.
+
+(* safety does not depend on WHICH Field objects a validator works on (renaming of cells) *)
+Theorem C20_shift_invariant : forall k ts, safe_b (shift_family k ts) = safe_b ts.
+Proof. exact safe_b_shift. Qed.
+
+(* any number of fields: every interleaving of operations that each validate all the fields *)
+Theorem C20_composed_all_schedules : forall n fams m0 tr i,
+    Forall (fun f => length f = n) fams ->
+    forallb safe_b fams = true ->
+    pairwise_disjoint_b n fams = true ->
+    interleave (compose_all n fams) tr -> i < n ->
+    obs_in m0 tr i = obs_seq m0 (nth i (compose_all n fams) []).
+Proof. exact composed_all_schedules. Qed.
+
+(* a class whose fields' validators (ANY generated access lists) are all classified safe *)
+Theorem C20_class_safe_all_schedules : forall es m0 tr i,
+    class_safe_b es = true -> interleave (class_threads es) tr -> i < 3 ->
+    obs_in m0 tr i = obs_seq m0 (nth i (class_threads es) []).
+Proof. exact class_safe_all_schedules. Qed.
 
 (* ---- caches shared by all threads (Global/Cache.v; protocols generated into Gen/CacheAccess.v) ---- *)
 
@@ -162,6 +191,10 @@ Print Assumptions C20_find_race_sound.
 Print Assumptions C20_safe_excludes_race.
 Print Assumptions C20_classified_safe.
 Print Assumptions C20_classified_racy.
+Print Assumptions C20_compose_safe.
+Print Assumptions C20_shift_invariant.
+Print Assumptions C20_composed_all_schedules.
+Print Assumptions C20_class_safe_all_schedules.
 Print Assumptions C20_cache_final_safe.
 Print Assumptions C20_cache_final_alone.
 Print Assumptions C20_cache_final_complete.
@@ -224,3 +257,21 @@ Example C20_cache_keys_nonvacuous :
   kresult (krun [0; 0; 2; 1; 2; 2; 2] (fun _ => None) (kstart [(1, bad); (1, p); (2, p)])) 1 = Some (COther 9) /\
   kresult (krun [0; 0; 2; 1; 2; 2; 2] (fun _ => None) (kstart [(1, bad); (1, p); (2, p)])) 2 = Some CFinal.
 Proof. vm_compute. split; reflexivity. Qed.
+
+(* composition, non-vacuity: a class with a Set-like field (one shared item name, constant) and a Map-like field
+   (two constant names), as literal access lists: the class is safe, its three sample operations have 21/15/27
+   actions, and the cells of the two fields are disjoint after renaming *)
+From Coq Require Import String.
+Definition ex_set : ventry :=
+  {| v_name := "set"%string; v_file := ""%string;
+     v_acc := [AWrite TShared VSelf Once 1; ACallSet TShared ScrPerIter PerIter 2; AReadBack TShared ScrPerIter PerIter 3] |}.
+Definition ex_map : ventry :=
+  {| v_name := "map"%string; v_file := ""%string;
+     v_acc := [AWrite (TFixed 0) (VSelfSuffix 0) Once 1; AWrite (TFixed 1) (VSelfSuffix 1) Once 2;
+               ACallSet (TFixed 0) ScrPerIter PerIter 3; ACallSet (TFixed 1) ScrPerIter PerIter 4;
+               AReadBack (TFixed 1) ScrPerIter PerIter 5; AReadBack (TFixed 0) ScrPerIter PerIter 5] |}.
+Example C20_class_nonvacuous :
+  class_safe_b [ex_set; ex_map] = true /\
+  map (@List.length action) (class_threads [ex_set; ex_map]) = [21; 15; 27] /\
+  pairwise_disjoint_b 3 (class_families [ex_set; ex_map]) = true.
+Proof. vm_compute. repeat split; reflexivity. Qed.
